@@ -12,9 +12,9 @@
                 readBody + appendBodyFixedSize (as "advance n bytes or hit the end of input"),
                 readBodyChunked, readBodyWithStreaming (prefetch of min(max, CL, 8 KiB)),
                 readMultipartForm (as an oracle ok/err that consumes exactly Content-Length),
-                Request.bodyBytes / closeBodyStream (detaching the stream)
+                Request.bodyBytes / closeBodyStream (detaching the stream, bodyStreamUnread)
      streaming.go  requestStream.Read, both modes (fixed: prefetched bytes, totalBytesRead;
-                chunked: chunkLeft, eof flag, parseChunkSize, readCrLf, ReadTrailer)
+                chunked: chunkLeft, eof flag, sticky err, parseChunkSize, readCrLf, ReadTrailer), drained
      server.go  serveConnCounted: body reading, the Expect branch, the handler call, the
                 timeout ctx swap, the post-handler drain io.CopyN(io.Discard, rs, max+1),
                 connectionClose, the hijack exit and the loop.
@@ -127,9 +127,10 @@ Fixpoint nsChunked (lim : option Z) (max : Z) (cs : list chunk) (zl : Z) (pos dl
            end
   end.
 
-(* readMultipartForm over io.LimitReader(r, CL), then the rest of the limit is discarded *)
+(* readMultipartForm over an io.LimitedReader of CL bytes, then the rest of the limit is discarded;
+   an input that ends before CL bytes is an unexpected EOF *)
 Definition readMultipart (lim : option Z) (cl : Z) (ok : bool) : nsres :=
-  if ok then NOk (adv_most lim 0 cl) else NErr.
+  if ok then match adv lim 0 cl with Some p => NOk p | None => NErr end else NErr.
 
 Definition continueReadBody (c : cfg) (r : req) : nsres :=
   let lim := r_lim r in
@@ -160,6 +161,8 @@ Definition continueReadBody (c : cfg) (r : req) : nsres :=
 
 (* chunked mode: s_chs = chunks not yet finished; when s_open, the head chunk's size line was
    consumed and its ch_size is chunkLeft.  fixed mode: s_cl, s_pre (prefetched bytes). *)
+Inductive rc := RcOk | RcEof | RcErr.    (* all wanted bytes delivered | io.EOF | another error *)
+
 Record sst := mkSst {
   s_fixed : bool;
   s_cl : Z;
@@ -168,9 +171,8 @@ Record sst := mkSst {
   s_open : bool;
   s_pos : Z;               (* connection reader position *)
   s_t : Z;                 (* totalBytesRead *)
-  s_eof : bool }.
-
-Inductive rc := RcOk | RcEof | RcErr.    (* all wanted bytes delivered | io.EOF | another error *)
+  s_eof : bool;
+  s_err : option rc }.     (* rs.err: the sticky chunked framing error (what every later Read returns) *)
 
 (* repeated Read calls until `want` more data bytes were delivered (None: until EOF) *)
 Definition fread (lim : option Z) (st : sst) (want : option Z) : rc * sst :=
@@ -182,7 +184,7 @@ Definition fread (lim : option Z) (st : sst) (want : option Z) : rc * sst :=
     (* data bytes below s_pre are in prefetchedBytes, the others come from the connection *)
     let avail := match lim with None => target | Some a => Z.min target (Z.max a (s_pre st)) end in
     let t' := Z.max t avail in
-    let st' := mkSst true cl (s_pre st) [] false (Z.max (s_pos st) t') t' false in
+    let st' := mkSst true cl (s_pre st) [] false (Z.max (s_pos st) t') t' false None in
     if t' <? target then (RcEof, st')                   (* rs.reader.Read returned io.EOF: passed on as is *)
     else match want with
          | Some k => if target =? t + k then (RcOk, st') else (RcEof, st')
@@ -192,46 +194,46 @@ Definition fread (lim : option Z) (st : sst) (want : option Z) : rc * sst :=
 Fixpoint cread (lim : option Z) (zl tl : Z) (chs : list chunk) (opened : bool) (pos t : Z) (want : option Z) : rc * sst :=
   match chs with
   | [] =>
-      (* parseChunkSize reads the last-chunk line, then ReadTrailer *)
-      if at_end lim pos then (RcEof, mkSst false 0 0 [] false pos t false)
+      (* parseChunkSize reads the last-chunk line, then ReadTrailer; any parseChunkSize error is kept in rs.err *)
+      if at_end lim pos then (RcEof, mkSst false 0 0 [] false pos t false (Some RcEof))
       else match adv lim pos zl with
-           | None => (RcErr, mkSst false 0 0 [] false (adv_most lim pos zl) t false)
+           | None => (RcErr, mkSst false 0 0 [] false (adv_most lim pos zl) t false (Some RcErr))
            | Some p1 =>
                (* ReadTrailer: io.EOF is not an error here *)
-               (RcEof, mkSst false 0 0 [] false (adv_most lim p1 tl) t true)
+               (RcEof, mkSst false 0 0 [] false (adv_most lim p1 tl) t true None)
            end
   | c :: chs' =>
-      if negb opened && at_end lim pos then (RcEof, mkSst false 0 0 chs false pos t false)   (* readHexInt: io.EOF *)
+      if negb opened && at_end lim pos then (RcEof, mkSst false 0 0 chs false pos t false (Some RcEof))   (* readHexInt: io.EOF *)
       else
       match (if opened then Some pos else adv lim pos (ch_line c)) with
-      | None => (RcErr, mkSst false 0 0 chs false (adv_most lim pos (ch_line c)) t false)
+      | None => (RcErr, mkSst false 0 0 chs false (adv_most lim pos (ch_line c)) t false (Some RcErr))
       | Some p1 =>
           let n := match want with Some k => Z.min k (ch_size c) | None => ch_size c end in
           match adv lim p1 n with
           | None =>
-              (* the input ends inside the chunk data: io.ErrUnexpectedEOF *)
+              (* the input ends inside the chunk data: io.ErrUnexpectedEOF (not kept: nothing is lost) *)
               let got := adv_most lim p1 n - p1 in
-              (RcErr, mkSst false 0 0 (mkChunk (ch_line c) (ch_size c - got) (ch_ok c) :: chs') true (p1 + got) (t + got) false)
+              (RcErr, mkSst false 0 0 (mkChunk (ch_line c) (ch_size c - got) (ch_ok c) :: chs') true (p1 + got) (t + got) false None)
           | Some p2 =>
               if n <? ch_size c then
-                (RcOk, mkSst false 0 0 (mkChunk (ch_line c) (ch_size c - n) (ch_ok c) :: chs') true p2 (t + n) false)
+                (RcOk, mkSst false 0 0 (mkChunk (ch_line c) (ch_size c - n) (ch_ok c) :: chs') true p2 (t + n) false None)
               else
-                (* chunkLeft == 0: readCrLf *)
+                (* chunkLeft == 0: readCrLf; its error is kept in rs.err *)
                 if ch_ok c then
                   match adv lim p2 2 with
-                  | None => (RcErr, mkSst false 0 0 chs' false (adv_most lim p2 2) (t + n) false)
+                  | None => (RcErr, mkSst false 0 0 chs' false (adv_most lim p2 2) (t + n) false (Some RcErr))
                   | Some p3 =>
                       let want' := match want with Some k => Some (k - n) | None => None end in
                       match want' with
-                      | Some 0 => (RcOk, mkSst false 0 0 chs' false p3 (t + n) false)
+                      | Some 0 => (RcOk, mkSst false 0 0 chs' false p3 (t + n) false None)
                       | _ => cread lim zl tl chs' false p3 (t + n) want'
                       end
                   end
                 else
-                  (* one wrong byte is consumed, the error is returned, chunkLeft stays 0 *)
+                  (* one wrong byte is consumed and the error is returned *)
                   match adv lim p2 1 with
-                  | None => (RcErr, mkSst false 0 0 chs' false p2 (t + n) false)
-                  | Some p3 => (RcErr, mkSst false 0 0 chs' false p3 (t + n) false)
+                  | None => (RcErr, mkSst false 0 0 chs' false p2 (t + n) false (Some RcErr))
+                  | Some p3 => (RcErr, mkSst false 0 0 chs' false p3 (t + n) false (Some RcErr))
                   end
           end
       end
@@ -243,8 +245,14 @@ Definition sread (lim : option Z) (zl tl : Z) (st : sst) (want : option Z) : rc 
   | _ =>
     if s_fixed st then fread lim st want
     else if s_eof st then (RcEof, st)
-    else cread lim zl tl (s_chs st) (s_open st) (s_pos st) (s_t st) want
+    else match s_err st with
+         | Some e => (e, st)                       (* the framing is broken: there is no way to resume *)
+         | None => cread lim zl tl (s_chs st) (s_open st) (s_pos st) (s_t st) want
+         end
   end.
+
+(* requestStream.drained: the whole body has been read from the stream *)
+Definition drained (st : sst) : bool := if s_fixed st then s_t st =? s_cl st else s_eof st.
 
 (* ------------------------------------------------------------------------------------ *)
 (* streaming body reading: Request.ContinueReadBodyStream                               *)
@@ -268,10 +276,10 @@ Definition continueReadBodyStream (c : cfg) (r : req) : sinit :=
           let readN := Z.min (Z.min (c_max c) n) prefetchLimit in
           match adv lim 0 readN with
           | None => SPlain NErr
-          | Some p => SStream (mkSst true n readN [] false p 0 false)    (* also when n > max (ErrBodyTooLarge) *)
+          | Some p => SStream (mkSst true n readN [] false p 0 false None)    (* also when n > max (ErrBodyTooLarge) *)
           end
       end
-  | FChunked cs zl tl => SStream (mkSst false 0 0 cs false 0 0 false)    (* errChunkedStream *)
+  | FChunked cs zl tl => SStream (mkSst false 0 0 cs false 0 0 false None)    (* errChunkedStream *)
   end.
 
 (* ------------------------------------------------------------------------------------ *)
@@ -394,22 +402,34 @@ Definition after_handler (c : cfg) (r : req) (pos1 : Z) (st1 : option sst) : lis
     | None => (0, RcOk, None)
     end in
   let pos2 := match st2 with Some st => s_pos st | None => pos1 end in
-  (* which stream is still attached to the ctx the loop goes on with *)
+  (* closeBodyStream (CloseBodyStream, ResetBody, SetBody...) detaches the stream and records in
+     req.bodyStreamUnread whether the body had been read to its end; a timeout swaps the ctx *)
   let attached :=
     match r_fin r with
-    | FinDetach => None            (* closeBodyStream: req.bodyStream = nil *)
-    | FinTimeout => None           (* ctx = s.acquireCtx(c): a fresh Request *)
+    | FinDetach => None
+    | FinTimeout => None
     | _ => st2
     end in
+  let unread :=
+    match r_fin r, st2 with
+    | FinDetach, Some st => negb (drained st)
+    | _, _ => false
+    end in
+  let timedout := match r_fin r with FinTimeout => true | _ => false end in
   let status := match r_fin r with FinTimeout => statusRequestTimeout | _ => statusOK end in
   let hijack := match r_fin r with FinHijack => true | _ => false end in
-  (* the drain *)
+  let had_stream := match st1 with Some _ => true | None => false end in
   let '(close1, pos3) :=
-    match attached with
-    | Some st => if hijack then (close0, pos2)
-                 else let '(cl, st') := drain c r st in (close0 || cl, s_pos st')
-    | None => (close0, pos2)
-    end in
+    if had_stream && negb hijack && (timedout || unread) then
+      (* the rest of the body cannot be skipped: the connection must not be reused *)
+      (true, pos2)
+    else
+      (* the drain *)
+      match attached with
+      | Some st => if hijack then (close0, pos2)
+                   else let '(cl, st') := drain c r st in (close0 || cl, s_pos st')
+      | None => (close0, pos2)
+      end in
   let close2 := close1 || match r_fin r with FinConnClose => true | _ => false end in
   let evs := [EDispatch (r_id r) nread hrc; EResp status close2] in
   if close2 then (evs, None)
